@@ -47,6 +47,10 @@ TWINS = [
     ("gfa2", ["S\tA\t8\t*", "S\tB\t8\t*", "E\t*\tA+\tB+\t6\t8$\t0\t2\t*", "E\t*\tA+\tB+\t6\t8$\t0\t2\t*"], ["A", "B"]),
     ("gfa2", ["S\tA\t8\t*", "S\tB\t8\t*", "G\t*\tA+\tB-\t5\t*", "G\t*\tA+\tB-\t5\t*", "F\tA\tx+\t0\t2\t0\t2\t*", "F\tA\tx+\t0\t2\t0\t2\t*"], ["A", "B"]),
     ("gfa1", ["S\tA\t*", "S\tB\t*", "C\tA\t+\tB\t+\t5\t*", "C\tA\t+\tB\t+\t5\t*"], ["A", "B"]),
+    # groups over groups that gfapy accepts: an ordered group that lists an unordered one (in both arrival orders), sets of sets of paths
+    ("gfa2", ["S\tA\t8\t*", "S\tB\t8\t*", "U\tu1\tA B", "O\to1\tu1+ A+"], ["u1", "A", "B", "o1"]),
+    ("gfa2", ["O\to1\tu1+ A+", "S\tA\t8\t*", "S\tB\t8\t*", "U\tu1\tA B"], ["u1", "A", "B", "o1"]),
+    ("gfa2", ["S\tA\t8\t*", "S\tB\t8\t*", "E\te\tA+\tB+\t6\t8$\t0\t2\t*", "O\to1\tA+ B+", "U\tu1\to1 e", "U\tu2\tu1 o1", "O\to2\to1+"], ["u1", "o1", "e", "A", "u2", "o2"]),
 ]
 
 
